@@ -15,9 +15,18 @@ from oracles import MUTATORS, err_class, strict_eq, to_plain
 from proto import apply_call, enc
 
 
+def _sorted(v):
+    """key order of dicts is unspecified after merges: canonicalise by sorting keys"""
+    if isinstance(v, dict):
+        return {k: _sorted(v[k]) for k in sorted(v, key=repr)}
+    if isinstance(v, (list, tuple)):
+        return [_sorted(x) for x in v]
+    return v
+
+
 def canon(v):
     try:
-        return enc(v)
+        return enc(_sorted(v))
     except Exception:  # noqa: BLE001
         return repr(v)
 
@@ -78,6 +87,8 @@ def _do(ns, objs, handles, op):
             return ("err", type(e).__name__)
     try:
         r = apply_call(_target(objs, handles, t), name, list(args))
+        if name == "dkeys":
+            r = sorted(r, key=repr)
         return ("ok", canon(to_plain(ns, r)))
     except S.DeadlockAbort:
         raise
@@ -264,7 +275,7 @@ def gen_op(rng, is_dict, init, objs, handles, reader, profile):
     if tdict:
         keys = list(node) + ["new", "k2"]
         if reader:
-            name = rng.choice(["dgetitem", "dget", "dlen", "dcall", "dcontains", "diter", "deq"] if node else ["dget", "dlen", "dcall", "dcontains", "diter"])
+            name = rng.choice(["dgetitem", "dget", "dlen", "dcall", "dcontains", "dkeys", "deq"] if node else ["dget", "dlen", "dcall", "dcontains", "dkeys"])
             if name == "dgetitem":
                 return (tgt, name, rng.choice(list(node)))
             if name == "dget":
@@ -274,7 +285,7 @@ def gen_op(rng, is_dict, init, objs, handles, reader, profile):
             if name == "deq":
                 return (tgt, name, json.loads(json.dumps(node)))
             return (tgt, name)
-        name = rng.choice(["dsetitem", "dsetitem", "ddelitem", "dpop", "dpopitem", "dclear", "dupdate", "dsetdefault", "dreset"] if node else
+        name = rng.choice(["dsetitem", "dsetitem", "ddelitem", "dpop", "dclear", "dupdate", "dsetdefault", "dreset"] if node else
                           ["dsetitem", "dsetitem", "dpop", "dupdate", "dsetdefault", "dreset"])
         if name == "dsetitem":
             return (tgt, name, rng.choice(keys), v)
